@@ -21,7 +21,7 @@ CLASS_GROUP = {
     "eol_c": "line-eol", "nosp_c": "line-eol", "own_c": "line-own", "own_c_ind": "line-own",
     "blank_own_c": "line-own", "two_c": "line-own", "uni_c": "line-own", "shebang_c": "line-own",
     "inl_blk": "block-inline", "inl_blk_tight": "block-inline", "lead_blk": "block-inline",
-    "ctl_c": "line-eol", "ctl_blk": "block-inline", "two_blk": "block-inline", "blk_eol_c": "block-inline", "own_blk_eol_c": "block-own",
+    "ctl_c": "line-eol", "ctl_blk": "block-inline", "two_blk": "block-inline", "blk_eol_c": "line-eol", "own_blk_eol_c": "line-own",
     "eol_blk": "block-eol", "own_blk": "block-own", "doc": "block-own", "ml_blk": "block-ml",
 }
 
